@@ -77,7 +77,7 @@ def NoUbStmt (cfg : Cfg) : Prop :=
 
 theorem no_ub : NoUbStmt Cfg.repaired := by
   intro own beh hb fuel ops hops w hc
-  have := execOps_good own beh hb fuel ops St.init hops Top.init
+  have := execOps_good own beh hb fuel ops St.init hops Top.init (RefOk.init own)
   rw [hc] at this
   exact this
 
@@ -99,7 +99,7 @@ def LiveIdsUniqueStmt (cfg : Cfg) : Prop :=
 
 theorem live_ids_unique : LiveIdsUniqueStmt Cfg.repaired := by
   intro own beh hb fuel ops st hops hr hnd hal b1 h1 b2 h2 hl heq
-  have := execOps_good own beh hb fuel ops St.init hops Top.init
+  have := execOps_good own beh hb fuel ops St.init hops Top.init (RefOk.init own)
   rw [hr] at this
   have hinv := (this.2 hnd hal).1.1
   have hk := hinv.idsUnique b1 h1 b2 h2 hl heq
@@ -118,7 +118,7 @@ def BindFreshStmt (cfg : Cfg) : Prop :=
 
 theorem bind_returns_fresh_id : BindFreshStmt Cfg.repaired := by
   intro own beh hb fuel ops st hops hr post pre k id ev first fl hsplit
-  have := execOps_good own beh hb fuel ops St.init hops Top.init
+  have := execOps_good own beh hb fuel ops St.init hops Top.init (RefOk.init own)
   rw [hr] at this
   have ht := this.1
   rw [hsplit] at ht
@@ -135,7 +135,7 @@ def OneshotStmt (cfg : Cfg) : Prop :=
 
 theorem oneshot_at_most_once : OneshotStmt Cfg.repaired := by
   intro own beh hb fuel ops st hops hr k fl hbound ho
-  have := execOps_good own beh hb fuel ops St.init hops Top.init
+  have := execOps_good own beh hb fuel ops St.init hops Top.init (RefOk.init own)
   rw [hr] at this
   exact Nat.le_trans (enterFire_le_fire this.1 k) (fire_le_one this.1 hbound ho)
 
@@ -149,7 +149,7 @@ def NoFireAfterUnbindStmt (cfg : Cfg) : Prop :=
 
 theorem no_fire_after_unbind : NoFireAfterUnbindStmt Cfg.repaired := by
   intro own beh hb fuel ops st hops hr post pre k hsplit
-  have := execOps_good own beh hb fuel ops St.init hops Top.init
+  have := execOps_good own beh hb fuel ops St.init hops Top.init (RefOk.init own)
   rw [hr] at this
   have ht := this.1
   rw [hsplit] at ht
@@ -166,7 +166,7 @@ def UnbindNotifyAtMostStmt (cfg : Cfg) : Prop :=
 
 theorem unbind_notify_at_most_once : UnbindNotifyAtMostStmt Cfg.repaired := by
   intro own beh hb fuel ops st hops hr k
-  have := execOps_good own beh hb fuel ops St.init hops Top.init
+  have := execOps_good own beh hb fuel ops St.init hops Top.init (RefOk.init own)
   rw [hr] at this
   exact ⟨notif_le_req this.1 k, req_le_one this.1 k, fun h n occ hm => notif_asked this.1 hm⟩
 
@@ -198,7 +198,7 @@ def DestroyNotifiesStmt (cfg : Cfg) : Prop :=
 
 theorem destroy_notifies : DestroyNotifiesStmt Cfg.repaired := by
   intro own beh hb fuel ops st st' hops hnd hr hal hd
-  have := execOps_good own beh hb fuel ops St.init hops Top.init
+  have := execOps_good own beh hb fuel ops St.init hops Top.init (RefOk.init own)
   rw [hr] at this
   have htop := (this.2 hnd hal).1
   have hfn : ∀ b ∈ st.list.reverse, b.fn ≠ none := fun b hb' =>
@@ -221,7 +221,7 @@ theorem destroy_notifies : DestroyNotifiesStmt Cfg.repaired := by
 theorem no_tombstone_between_operations (own : Owner) (beh : Behaviour) (hb : Safe own beh) (fuel : Nat) (ops : List Op) (st : St)
     (hops : ValidOps ops) (hnd : Op.destroy ∉ ops) (hr : Runs Cfg.repaired own beh fuel ops st) (hal : st.dead = false) :
     st.isIter = false ∧ ∀ b ∈ st.list, b.id ≠ TOMBSTONE := by
-  have := execOps_good own beh hb fuel ops St.init hops Top.init
+  have := execOps_good own beh hb fuel ops St.init hops Top.init (RefOk.init own)
   rw [hr] at this
   exact ⟨(this.2 hnd hal).1.2, (this.2 hnd hal).1.no_tombstones⟩
 
@@ -245,7 +245,7 @@ theorem no_tombstone_between_operations (own : Owner) (beh : Behaviour) (hb : Sa
     order (`fire_exactly_once`); and the chain is in binding order, `FIRST` binds ahead (`chain_in_binding_order`). -/
 def FireOrderStmt (cfg : Cfg) : Prop :=
   ∀ own beh, Safe own beh → ∀ fuel wf ev st st' r, Tickit.Bindings.Inv st → RefOk own st →
-    (own.holdsRef = true → (if st.userRef then 2 else 1) ≤ st.refs) → 1 ≤ st.nextOcc →
+    (own.holdsRef = true → b2n st.userRef + st.frozenRefs + 1 ≤ st.refs) → 1 ≤ st.nextOcc →
     exec cfg own beh fuel (.runEvent wf ev) st = .ok (st', r) →
     ∃ seg A, st'.log = Ev.occEnd st.nextOcc :: (seg ++ Ev.occBegin st.nextOcc ev wf :: st.log) ∧
       (keys st.list ++ A).Nodup ∧
@@ -267,15 +267,15 @@ theorem fire_order : FireOrderStmt Cfg.repaired := by
 theorem occurrence_numbers_positive (own : Owner) (beh : Behaviour) (hb : Safe own beh) (fuel : Nat) (ops : List Op) (st : St)
     (hops : ValidOps ops) (hnd : Op.destroy ∉ ops) (hr : Runs Cfg.repaired own beh fuel ops st) (hal : st.dead = false) :
     1 ≤ st.nextOcc := by
-  have := execOps_good own beh hb fuel ops St.init hops Top.init
+  have := execOps_good own beh hb fuel ops St.init hops Top.init (RefOk.init own)
   rw [hr] at this
-  exact (this.2 hnd hal).2
+  exact (this.2 hnd hal).2.1
 
 /-- Exactly once: a binding live for the event when the occurrence starts and still live for it when the occurrence
     ends (no handler having claimed the event) was delivered to exactly once in it. -/
 theorem fire_exactly_once (own : Owner) (beh : Behaviour) (hb : Safe own beh) (fuel : Nat) (wf : Bool) (ev : Int)
     (st st' : St) (r : Int) (h : Tickit.Bindings.Inv st) (hro : RefOk own st)
-    (hrefs : own.holdsRef = true → (if st.userRef then 2 else 1) ≤ st.refs) (hocc : 1 ≤ st.nextOcc)
+    (hrefs : own.holdsRef = true → b2n st.userRef + st.frozenRefs + 1 ≤ st.refs) (hocc : 1 ≤ st.nextOcc)
     (hex : exec Cfg.repaired own beh fuel (.runEvent wf ev) st = .ok (st', r)) :
     ∃ seg, st'.log = Ev.occEnd st.nextOcc :: (seg ++ Ev.occBegin st.nextOcc ev wf :: st.log) ∧
       ∀ b, evLive ev st.log b → evLive ev (seg ++ Ev.occBegin st.nextOcc ev wf :: st.log) b → ¬ (wf = true ∧ r ≠ 0) →
@@ -296,7 +296,7 @@ theorem fire_exactly_once (own : Owner) (beh : Behaviour) (hb : Safe own beh) (f
 theorem chain_in_binding_order (own : Owner) (beh : Behaviour) (hb : Safe own beh) (fuel : Nat) (ops : List Op) (st : St)
     (hops : ValidOps ops) (hnd : Op.destroy ∉ ops) (hr : Runs Cfg.repaired own beh fuel ops st) (hal : st.dead = false) :
     (keys st.list).Sublist (bindOrder st.log) ∧ (bindOrder st.log).Nodup := by
-  have := execOps_good own beh hb fuel ops St.init hops Top.init
+  have := execOps_good own beh hb fuel ops St.init hops Top.init (RefOk.init own)
   rw [hr] at this
   exact ⟨(this.2 hnd hal).1.1.order, (bindOrder_nodup this.1).1⟩
 
@@ -334,7 +334,7 @@ theorem owner_outlives_the_walk (own : Owner) (beh : Behaviour) (hb : Safe own b
     very occurrence), the sweep is done and every binding of the chain is live — and only then notified the remaining
     bindings that asked, in reverse chain order, each exactly once, and freed the chain. -/
 def DeferredDestroyStmt (cfg : Cfg) : Prop :=
-  ∀ own beh, own.holdsRef = true → ∀ fuel wf ev st st' r, Tickit.Bindings.Inv st → st.isIter = false →
+  ∀ own beh, own.holdsRef = true → ∀ fuel wf ev st st' r, Tickit.Bindings.Inv st → RefOk own st → st.isIter = false →
     exec cfg own beh fuel (.emitter wf ev) st = .ok (st', r) → st'.dead = true →
     ∃ st2 fuel', exec cfg own beh fuel' (.runEvent wf ev) { st with refs := st.refs + 1 } = .ok (st2, r) ∧
       Tickit.Bindings.Inv st2 ∧ st2.isIter = false ∧ (∀ b ∈ st2.list, b.id ≠ TOMBSTONE) ∧ st'.list = [] ∧
@@ -342,8 +342,8 @@ def DeferredDestroyStmt (cfg : Cfg) : Prop :=
         enters seg = (st2.list.reverse.filter asked).map (fun b => (b.key, EV_UNBIND + EV_DESTROY))
 
 theorem destroy_from_handler_notifies : DeferredDestroyStmt Cfg.repaired := by
-  intro own beh hh fuel wf ev st st' r h hni hex hd
-  exact emitter_destroys own beh (Or.inl hh) hh h hni hex hd
+  intro own beh hh fuel wf ev st st' r h hro hni hex hd
+  exact emitter_destroys own beh (Or.inl hh) hh h hro hni hex hd
 
 /-- Without the emitters' reference the hypothesis on the behaviours is needed: on a pen that holds none
     (the code before fix 4d40c98) a handler dropping the last reference frees the chain under the walker. -/
@@ -382,7 +382,7 @@ def LiveInChainStmt (cfg : Cfg) : Prop :=
 
 theorem live_bindings_are_in_chain : LiveInChainStmt Cfg.repaired := by
   intro own beh hb fuel ops st hops hr hnd hal k
-  have := execOps_good own beh hb fuel ops St.init hops Top.init
+  have := execOps_good own beh hb fuel ops St.init hops Top.init (RefOk.init own)
   rw [hr] at this
   exact ((this.2 hnd hal).1.1.liveIff k).symm
 
